@@ -76,6 +76,7 @@ RunResult run_w5(const Plan& pl) {
             for (size_t k = 0; k < cells.size() && res.viol.empty(); k++) {
                 cell& c = *cells[k]; TopoOpts o; o.t7_volume = false; std::string e = check_topology(c, o);
                 if (!e.empty()) { res.fail("C13", "handed_over_" + e.substr(0, e.find(':')), "cell " + std::to_string(k) + " handed to the solver: " + e); break; }
+                if (getenv("W5_CALIB")) fprintf(stderr, "CELL %zu: %zu live nodes of %zu slots, %zu faces\n", k, c.get_nb_of_nodes(), c.get_node_lst().size(), c.get_nb_of_faces());
                 CellView v = view_of(c); Geo g = geometry(v); CellView rv; rv.pos = ref[k].V; rv.nused.assign(ref[k].V.size(), 1); rv.tri = ref[k].F; rv.fused.assign(ref[k].F.size(), 1);
                 { double Ld = (g.bmax - g.bmin).norm(); if (g.volume < -1e-6 * Ld * Ld * Ld) { std::ostringstream d; d << "cell " << k << " handed to the solver is inside-out (signed volume " << g.volume << ", diameter " << Ld << ")"; res.fail("C13", "handed_over_inside_out", d.str()); break; } if (!(g.volume > 1e-6 * Ld * Ld * Ld)) res.probes.hit("flat_cell_handed_over_coarse"); }   // a (near) zero volume sheet is judged by the volume clause where fidelity applies (l_min <= size/4) CellView rv; rv.pos = ref[k].V; rv.nused.assign(ref[k].V.size(), 1); rv.tri = ref[k].F; rv.fused.assign(ref[k].F.size(), 1);
                 Geo gi = geometry(rv); double relv = std::fabs(g.volume - vol[k]) / vol[k];
